@@ -35,6 +35,7 @@ SPACE = {
     "units": [[1.0, 1.0, 1.0, 1.0], [2.0, 3.0, 5.0, 2.0], [1.66e-24, 3.08e18, 3.15e13, 4.0]],
     "nout": [1, 7, -1],
     "ordering": ["hilbert", "planar"],
+    "info_format": ["repr", "fortran"],
 }
 
 
@@ -98,7 +99,7 @@ def make_output(tree, cfg):
         tree, ncpu=ncpu, owner=owner, ghosts=ghosts, boxlen=box, unit_d=ud, unit_l=ul, unit_t=ut,
         hydro=cfg["hydro"], grav=cfg["grav"], rt=rt, nxyz=nxyz, boundary_octs=bo,
         noutput=cfg["noutput"], key_width=cfg["key_width"], ordering=cfg["ordering"],
-        ghost_son=cfg["ghost_son"], nout=12 if nout == -1 else nout,
+        ghost_son=cfg["ghost_son"], nout=12 if nout == -1 else nout, info_format=cfg.get("info_format", "repr"),
     )
 
 
@@ -200,7 +201,10 @@ def scale_trees():
     deep2 = M1.Tree(2, 8, chain)
     r1 = [(1, (0,)), (1, (1,))] + [(2, (i,)) for i in range(4)] + [(3, (i,)) for i in range(8)] + [(4, (i,)) for i in range(0, 16, 2)] + [(5, (i,)) for i in range(0, 32, 4)]
     wide1 = M1.Tree(1, 6, r1)
-    return [("3d-L4-42-blocks", big3, 17), ("2d-L8-chain", deep2, 11), ("1d-L6-wide", wide1, 13)]
+    # levelmax far above the finest level present: the Hilbert key range (2^66, 2^50) is not exactly printable with 15 digits
+    deep3 = M1.Tree(3, 21, [(1, (0, 0, 0)), (1, (1, 1, 1)), (2, (1, 1, 0))])
+    deep2b = M1.Tree(2, 24, [(1, (0, 1)), (2, (1, 2))])
+    return [("3d-L4-42-blocks", big3, 17), ("2d-L8-chain", deep2, 11), ("1d-L6-wide", wide1, 13), ("3d-levelmax21", deep3, 2), ("2d-levelmax24", deep2b, 3)]
 
 
 def cases(thorough, seed):
@@ -208,7 +212,7 @@ def cases(thorough, seed):
     base0 = {k: v[0] for k, v in SPACE.items()}
     # block S: scale (many cpus / blocks / levels) x a few configurations
     for label, t, ncpu in scale_trees():
-        for extra in ({}, {"ghosts": "first", "grav": True}, {"owners": "bylevel", "ghosts": "last", "bnd": "x2"}):
+        for extra in ({}, {"ghosts": "first", "grav": True}, {"owners": "bylevel", "ghosts": "last", "bnd": "x2"}, {"info_format": "fortran", "ghosts": "all"}):
             yield ("S:" + label, t, dict(base0, ncpu=ncpu, **extra))
     base = {k: v[0] for k, v in SPACE.items()}
     # block A: every tree x 3 fixed configurations
@@ -254,8 +258,45 @@ def work(payload):
     return acc
 
 
+def env_cases(thorough, environment):
+    fams = tree_families(False, 0)
+    base = {k: v[0] for k, v in SPACE.items()}
+    core = core_trees(fams, 2)
+    if environment == "user-units":
+        for t in core:
+            for extra in ({}, {"ncpu": 2, "ghosts": "all"}, {"units": SPACE["units"][1], "grav": True}):
+                yield ("E", t, dict(base, hydro="user", **extra))
+    else:
+        for k, (block, t, cfg) in enumerate(cases(thorough, 0)):
+            if k % (53 if thorough else 211) == 0:
+                yield (block, t, cfg)
+
+
+def env_work(payload):
+    """A reduced case list run inside another environment (interpreter flags, user configuration)."""
+    acc = Acc()
+    env = payload["environment"]
+    if env == "user-units":
+        M2.USER_KINDS.update(M2.USER_UNITS_ENVIRONMENT)
+    for idx, (block, tree, cfg) in enumerate(env_cases(payload["tier"] == "thorough", env)):
+        problems, info = run_case(tree, cfg)
+        acc.case(nontrivial=True, outcome="ok" if not problems else "violation")
+        for sig, detail in problems:
+            acc.violation("C01:" + sig, idx, {"tree": tree.describe(), "cfg": cfg}, detail)
+    return acc
+
+
+def environment_replay(payload):
+    if payload.get("environment") == "user-units":
+        M2.USER_KINDS.update(M2.USER_UNITS_ENVIRONMENT)
+    return replay_sigs(payload["case"])
+
+
 def run(ctx):
-    acc = Acc.merged(ctx.pool.shards(MOD, "work", ctx.base(), nshards=ctx.pool.n * 4))
+    from ..runner import ENVIRONMENTS, EnvironmentRuns
+
+    envruns = EnvironmentRuns(MOD, "env_work", ctx.base(), list(ENVIRONMENTS))
+    acc = Acc.merged(ctx.pool.shards(MOD, "work", ctx.base(), nshards=ctx.pool.n * 4) + envruns.results())
     fams = tree_families(ctx.thorough, ctx.seed)
     cov = {
         "evaluations": acc.evaluations,
@@ -290,6 +331,10 @@ def run(ctx):
 
 
 def replay_sigs(case):
+    if case.get("environment"):
+        from ..runner import replay_in_environment
+
+        return replay_in_environment(MOD, case)
     tree = tree_from(case["tree"])
     problems, _ = run_case(tree, case["cfg"])
     return ["C01:" + s for s, _ in problems]
